@@ -95,6 +95,7 @@ def main(ctx):
         for beh in BEHAVIOURS:
             jobs.append({"kind": "one", "level": 1, "tkind": "l1", "sid": "json", "beh": beh, "tier": tier})
         jobs.append({"kind": "unknown", "level": 1, "tkind": "l1", "sid": "json"})
+        jobs.append({"kind": "reuse", "level": 1, "tkind": "l1", "sid": "json"})
         two_b = ["value", "unmapped", "later:value", "later:app_error", "later:oversized",
                  "later:unserializable"] + (["oversized", "later:unmapped", "later:callresult"] if thorough else [])
         for a in two_b:
@@ -110,6 +111,8 @@ def main(ctx):
                                            if k.startswith("uri|")}
     for ep in ("named", "mixed", "var+ct", "named+ct", "mixed+ct"):
         ctx.require("endpoint_signature|%s" % ep)
+    for n in ("session_reused", "service_object_falsy", "service_object_truthy"):
+        ctx.require(n)
     for fw in FWS:
         for beh in BEHAVIOURS:
             ctx.require("beh|%s|%s" % (beh, fw))
@@ -734,7 +737,137 @@ def job(a):
                     acc.inc("two_concurrent|%s|%s" % (a["tkind"], acc.fw))
     elif kind == "unknown":
         unknown_cases(acc, base)
+    elif kind == "reuse":
+        reuse_cases(acc)
     return acc.result()
+
+
+def reuse_cases(acc):
+    """state carried over on the session object and in the service object:
+    (1) one ApplicationSession object used for two connections in a row (a component re-attaching
+        the same session): an invocation pending when the first connection is lost - completed while
+        disconnected, failed while disconnected, or never completed - must not disturb the second
+        connection: INVOCATIONs there (request ids restart, so the same id comes again) are invoked
+        and answered exactly once;
+    (2) register(obj) with decorated methods on a service object that is falsy (a container-like
+        service that is currently empty): the method still receives self + exactly the caller's
+        arguments."""
+    import txaio
+    from harness import wamp_l1 as H
+    from autobahn import wamp
+    from autobahn.wamp import message as M
+    fw = acc.fw
+    for first in ("complete-while-disconnected", "fail-while-disconnected", "never-completed",
+                  "completed-before-loss", "no-invocation"):
+        for same_id in (True, False):
+            l1 = H.L1()
+            l1.join()
+            s = l1.session
+            pend = []
+            calls = []
+
+            def ep(*a_, **k_):
+                calls.append((a_, k_))
+                if len(calls) == 1 and first != "no-invocation":
+                    f = txaio.create_future()
+                    pend.append(f)
+                    return f
+                return "second-%d" % len(calls)
+            r = l1.api(s.register, ep, "com.reuse.p")
+            l1.settle()
+            reg_req = [m for m in l1.transport.sent if isinstance(m, M.Register)][-1].request
+            l1.deliver(M.Registered(reg_req, 700))
+            if first != "no-invocation":
+                l1.deliver(M.Invocation(1001, 700, args=[1]))
+                if first == "completed-before-loss":
+                    txaio.resolve(pend[0], "first")
+                    l1.settle()
+            l1.lose(False)
+            if first == "complete-while-disconnected":
+                txaio.resolve(pend[0], "late")
+            elif first == "fail-while-disconnected":
+                txaio.reject(pend[0], RuntimeError("late failure"))
+            l1.settle()
+            # second connection of the SAME session object
+            l1.transport = H.ScriptedTransport()
+            l1.closed = False
+            exc = None
+            try:
+                l1.join(7654321)
+            except Exception as e:
+                exc = e
+            acc.evals += 1
+            acc.inc("nontrivial")
+            acc.inc("session_reused")
+            case = {"kind": "reuse", "first": first, "same_id": same_id}
+            if exc is not None:
+                acc.bad("C10|reuse-join-failed|%s" % fw, "second connection: join raised %r (%s)" % (exc, first), case)
+                continue
+            r = l1.api(s.register, ep, "com.reuse.p")
+            l1.settle()
+            regs = [m for m in l1.transport.sent if isinstance(m, M.Register)]
+            if r[0] == "raise" or len(regs) != 1:
+                acc.bad("C10|reuse-register|%s" % fw, "second connection: register -> %r, sent %r (%s)" % (
+                    r[:1], [type(m).__name__ for m in l1.transport.sent], first), case)
+                continue
+            l1.deliver(M.Registered(regs[0].request, 701))
+            n_calls = len(calls)
+            n0 = len(l1.transport.sent)
+            req = 1001 if same_id else 1002
+            exc = l1.deliver(M.Invocation(req, 701, args=[2]))
+            l1.settle()
+            new = l1.transport.sent[n0:]
+            ok = (exc is None and len(calls) == n_calls + 1 and len(new) == 1 and
+                  isinstance(new[0], M.Yield) and new[0].request == req)
+            if not ok:
+                acc.bad("C10|reuse-invocation-not-answered|%s" % fw,
+                        "after '%s' on the first connection, INVOCATION request=%d on the second connection of "
+                        "the same session object: raised %r, endpoint called %d times, sent %s, transport %s" % (
+                            first, req, exc, len(calls) - n_calls,
+                            [(type(m).__name__, getattr(m, "request", None)) for m in new], l1.transport.calls), case)
+    # ---- (2) falsy service objects
+    for falsy in (False, True):
+        class Svc:
+            def __init__(self):
+                self.items = [] if falsy else [1]
+                self.seen = []
+
+            def __len__(self):
+                return len(self.items)
+
+            @wamp.register("com.svc.get")
+            def get(self, key, default="dflt"):
+                self.seen.append(("get", key, default))
+                return default
+
+            @wamp.register("com.svc.put")
+            def put(self, *args, **kwargs):
+                self.seen.append(("put", args, kwargs))
+                return len(args)
+        svc = Svc()
+        l1 = H.L1()
+        l1.join()
+        r = l1.api(l1.session.register, svc)
+        l1.settle()
+        regs = {m.procedure: m.request for m in l1.transport.sent if isinstance(m, M.Register)}
+        for i, (proc, rq) in enumerate(sorted(regs.items())):
+            l1.deliver(M.Registered(rq, 800 + i))
+        ids = {proc: 800 + i for i, (proc, rq) in enumerate(sorted(regs.items()))}
+        n0 = len(l1.transport.sent)
+        e1 = l1.deliver(M.Invocation(2001, ids["com.svc.get"], args=["k"]))
+        e2 = l1.deliver(M.Invocation(2002, ids["com.svc.put"], args=[1, 2], kwargs={"x": 3}))
+        l1.settle()
+        acc.evals += 1
+        acc.inc("nontrivial")
+        acc.inc("service_object_%s" % ("falsy" if falsy else "truthy"))
+        new = [(type(m).__name__, m.request, getattr(m, "args", None)) for m in l1.transport.sent[n0:]]
+        want_seen = [("get", "k", "dflt"), ("put", (1, 2), {"x": 3})]
+        want_new = [("Yield", 2001, ["dflt"]), ("Yield", 2002, [2])]
+        if e1 or e2 or svc.seen != want_seen or new != want_new:
+            acc.bad("C10|endpoint-arguments|service-object|%s" % fw,
+                    "register(obj) on a %s service object: methods saw %r (expected %r), sent %r (expected %r), "
+                    "raised %r %r" % ("falsy" if falsy else "truthy", svc.seen, want_seen, new, want_new, e1, e2),
+                    {"kind": "reuse"})
 
 
 def unknown_cases(acc, base):
